@@ -182,7 +182,14 @@ static std::string read_uuid(World& w)
 World::World(eng::engine_schema sch) : schema(sch), v2(is_v2(sch)), db(std::shared_ptr<dj::database_impl>())
 {
     size_t before = seam::opened_handles().size();
-    db = eng::create_temporary_database(sch);
+    if (v2)
+    {
+        // identical to create_temporary_database (engine.cpp), but keeps the engine_library for table-API access
+        lib2 = std::make_shared<eng::v2::engine_library>(eng::v2::engine_library::create_temporary(sch));
+        db = lib2->database();
+    }
+    else
+        db = eng::create_temporary_database(sch);
     if (seam::opened_handles().size() <= before) throw std::runtime_error("World: SQLite handle not captured");
     handle = seam::opened_handles().back();
     uuid = read_uuid(*this);
